@@ -28,7 +28,7 @@ m = {
     "setup_cmd": "cd /verif/pv && GOFLAGS=-mod=mod GOPROXY=off GOSUMDB=off GOTOOLCHAIN=local GOWORK=off go build -o ../bin/pv ./cmd/pv",
     "hooks": {"guard": "verif", "enable": "no hooks are needed: every check analyses /repo's source as it is (go/packages + go/ssa); the build tag 'verif' is reserved and unused",
               "baseline_off_cmd": src['baseline_off_cmd'], "source_commits": [], "add_only": True},
-    "engines": src['engines'],
+    "engines": [dict(e, serves_properties=sorted(claimed)) if e.get("name") == "pv" else e for e in src['engines']],
     "checks": checks,
     "notes": src['notes'],
     "not_applicable": na,
